@@ -1,6 +1,10 @@
 use crate::errors::PriceLevelError;
 use crate::orders::{OrderId, OrderType};
+#[cfg(feature = "verif-hooks")]
+use crate::verif::{DashMap, SegQueue};
+#[cfg(not(feature = "verif-hooks"))]
 use crossbeam::queue::SegQueue;
+#[cfg(not(feature = "verif-hooks"))]
 use dashmap::DashMap;
 use serde::de::{SeqAccess, Visitor};
 use serde::ser::SerializeSeq;
